@@ -231,6 +231,28 @@ func main() {
 			})
 			e.Strs("keywordLiteralErrors", errs, "parser.parseSeqQLKeyword: return statements that carry an error")
 		}
+		// ---- the query text reaches the stores and the fetch-stage parse unchanged
+		if h, err := r.Load("proxy/search/search_request.go"); err != nil {
+			e.Missing("search_request.go", err)
+		} else if fd := h.Func("SearchRequest", "GetAPISearchRequest"); fd == nil {
+			e.Missing("apiSearchRequestQuery", "GetAPISearchRequest not found")
+		} else {
+			pre := []string{}
+			var q []string
+			for _, st := range fd.Body.List {
+				if _, ok := st.(*ast.ReturnStmt); !ok {
+					pre = append(pre, h.Render(st))
+				}
+			}
+			ast.Inspect(fd.Body, func(n ast.Node) bool {
+				if kv, ok := n.(*ast.KeyValueExpr); ok && h.Render(kv.Key) == "Query" {
+					q = append(q, h.Render(kv.Value))
+				}
+				return true
+			})
+			e.Strs("apiSearchRequestPre", pre, "search.SearchRequest.GetAPISearchRequest: statements before the return (none: the request is not rewritten)")
+			e.Strs("apiSearchRequestQuery", q, "search.SearchRequest.GetAPISearchRequest: the Query field of the store request")
+		}
 		// ---- keyword recognition of the pipe parser: case-insensitive, never a quoted token
 		if h, err := r.Load("parser/seqql_pipes.go"); err != nil {
 			e.Missing("seqql_pipes.go", err)
@@ -280,5 +302,5 @@ func main() {
 				e.Strs(fn.lean, stmts, "parser.lexer."+fn.name+": statements")
 			}
 		}
-	}, "storeapi/grpc_fetch.go", "proxy/search/ingestor.go", "parser/seqql_pipes.go", "parser/seqql.go", "parser/seqql_filter.go", "proxyapi/grpc_fetch.go")
+	}, "storeapi/grpc_fetch.go", "proxy/search/ingestor.go", "parser/seqql_pipes.go", "parser/seqql.go", "parser/seqql_filter.go", "proxyapi/grpc_fetch.go", "proxy/search/search_request.go")
 }
